@@ -260,13 +260,17 @@ func (o *fillOpt) wantOptional() bool {
 	switch o.present {
 	case "none":
 		return false
-	case "all":
+	case "all", "holes", "emptylists":
 		return true
 	case "only":
 		return k == o.only
 	}
 	return o.rnd.Intn(2) == 0
 }
+
+// hole: under the "holes" strategy one pointer in eight is left nil where a value is required (mandatory member,
+// selected CHOICE alternative, list element): such a value has no encoding and the codec must say so, not panic
+func (o *fillOpt) hole() bool { return o.present == "holes" && o.rnd.Intn(8) == 0 }
 
 func (o *fillOpt) fill(v reflect.Value, depth int) {
 	t := v.Type()
@@ -313,7 +317,7 @@ func (o *fillOpt) fill(v reflect.Value, depth int) {
 		}
 		v.SetString(string(b))
 	case reflect.Ptr:
-		if depth >= o.maxDepth {
+		if depth >= o.maxDepth || o.hole() {
 			return
 		}
 		v.Set(reflect.New(t.Elem()))
@@ -322,6 +326,9 @@ func (o *fillOpt) fill(v reflect.Value, depth int) {
 		n := 0
 		if o.leaf != "zero" && depth < o.maxDepth {
 			n = 1 + o.rnd.Intn(2)
+		}
+		if o.present == "emptylists" {
+			n = 0 // present but empty (non-nil): encoded as an empty SEQUENCE OF, not omitted
 		}
 		s := reflect.MakeSlice(t, n, n)
 		for i := 0; i < n; i++ {
@@ -347,6 +354,9 @@ func (o *fillOpt) fill(v reflect.Value, depth int) {
 			v.Field(0).SetInt(int64(alt))
 			f := v.Field(alt)
 			if f.Kind() == reflect.Ptr {
+				if o.hole() {
+					return
+				}
 				f.Set(reflect.New(f.Type().Elem()))
 				o.fill(f.Elem(), depth+1)
 			} else {
@@ -368,6 +378,42 @@ func (o *fillOpt) fill(v reflect.Value, depth int) {
 			o.fill(f, depth+1)
 		}
 	}
+}
+
+// equalModuloNilEmpty is reflect.DeepEqual except that a nil slice equals an empty one (ASN.1 has no such distinction
+// for a member that is present; absence of an OPTIONAL member is judged on the value trees).
+func equalModuloNilEmpty(a, b reflect.Value) bool {
+	if a.Type() != b.Type() {
+		return false
+	}
+	switch a.Kind() {
+	case reflect.Ptr, reflect.Interface:
+		if a.IsNil() || b.IsNil() {
+			return a.IsNil() == b.IsNil()
+		}
+		return equalModuloNilEmpty(a.Elem(), b.Elem())
+	case reflect.Slice:
+		if a.Len() != b.Len() {
+			return false
+		}
+		for i := 0; i < a.Len(); i++ {
+			if !equalModuloNilEmpty(a.Index(i), b.Index(i)) {
+				return false
+			}
+		}
+		return true
+	case reflect.Struct:
+		for i := 0; i < a.NumField(); i++ {
+			if !a.Type().Field(i).IsExported() {
+				continue
+			}
+			if !equalModuloNilEmpty(a.Field(i), b.Field(i)) {
+				return false
+			}
+		}
+		return true
+	}
+	return reflect.DeepEqual(a.Interface(), b.Interface())
 }
 
 // ---- generated types (shapes enumerated by TLC) ------------------------------------------------
@@ -607,7 +653,7 @@ func (r *berRunner) roundTrip(c BerCase, ptr reflect.Value, params string) []byt
 		} else {
 			p2 := 0
 			rec["back"] = nodeOf(back.Elem(), top, &p2)
-			rec["deq"] = reflect.DeepEqual(ptr.Elem().Interface(), back.Elem().Interface())
+			rec["deq"] = equalModuloNilEmpty(ptr.Elem(), back.Elem())
 		}
 	}
 	r.emit(rec)
